@@ -1,19 +1,53 @@
-/* Correspondence harness for src/containers/qhashtbl.c (property C05).
+/* Correspondence harness for src/containers/qhashtbl.c (properties C05, and the hash-table part
+ * of C11 / C12 / C15).
  * One operation per input line, one result line per operation (see Driver/HashTbl.lean):
- *   <api result> | <range> <num> <slot>:[name(hash)=data,...] ...        (non-empty slots only)
+ *   <api result> | <range> <num> live=<n> <slot>:[name(hash)=data,...] ...   (non-empty slots only)
  * The chain layout is read through the public structs after every operation. The hash printed
  * is the one the C code stored; the operation line carries the hash the generator computed
- * (pure-Python murmur3) and the model places the key by that value, so a disagreement shows. */
+ * (pure-Python murmur3) and the model places the key by that value, so a disagreement shows.
+ *
+ * Allocation overlay (linked against libqw.a, see allocwrap.h): `fault k` / `faultfrom k` arm a
+ * failure for the NEXT library call; the result of every call that may allocate starts with
+ * `allocs=<attempts>`; `live` = blocks the library holds for the container (copies handed to the
+ * caller excluded). Copies returned by copying accessors are kept with a private duplicate and
+ * re-compared when the container is released (`end`); the caller's key / value buffers are
+ * overwritten right after each put. */
 #include "common.h"
+#include "allocwrap.h"
 #include "qlibc.h"
 #include <inttypes.h>
+
+/* C12: copies handed out by the library are kept and compared with a private duplicate when the
+ * container is released (a retained internal pointer would have been freed or overwritten) */
+typedef struct { void *p; void *dup; size_t n; } kept_t;
+static kept_t *kept; static size_t nkept, capkept;
+static long kept_bad = 0;
+static void keep(void *p, size_t n) {
+    if (!p) return;
+    if (nkept == capkept) { capkept = capkept ? capkept * 2 : 256; kept = realloc(kept, capkept * sizeof(*kept)); }
+    kept[nkept].p = p; kept[nkept].n = n; kept[nkept].dup = malloc(n ? n : 1); memcpy(kept[nkept].dup, p, n); nkept++;
+    if (nkept > 4096) {      /* bound the memory: release the oldest half after checking it */
+        size_t h = nkept / 2;
+        for (size_t i = 0; i < h; i++) { if (memcmp(kept[i].p, kept[i].dup, kept[i].n)) kept_bad++; vf_free(kept[i].p); free(kept[i].dup); }
+        memmove(kept, kept + h, (nkept - h) * sizeof(*kept)); nkept -= h;
+    }
+}
+static long check_kept(void) {
+    long bad = kept_bad;
+    for (size_t i = 0; i < nkept; i++) {
+        if (memcmp(kept[i].p, kept[i].dup, kept[i].n)) bad++;
+        vf_free(kept[i].p); free(kept[i].dup);
+    }
+    nkept = 0; kept_bad = 0;
+    return bad;
+}
 
 static qhashtbl_t *T = NULL;
 static qhashtbl_obj_t CUR;      /* the caller's cursor struct of getnext */
 static bool cur_valid = true;   /* no node was freed since the cursor was last filled */
 
 static void dump(void) {
-    printf(" | %zu %zu", T->range, T->num);
+    printf(" | %zu %zu live=%ld", T->range, T->num, aw_live - (long) nkept);
     for (size_t i = 0; i < T->range; i++) {
         if (T->slots[i] == NULL) continue;
         printf(" %zu:[", i);
@@ -33,15 +67,21 @@ static void show_next(bool r, int e, bool newmem) {
         puthex(stdout, CUR.name, strlen(CUR.name));
         printf("(%08x)=", CUR.hash);
         puthex(stdout, CUR.data, CUR.size);
-        if (newmem) { free(CUR.name); free(CUR.data); }   /* pointers stay non-NULL: "continue" */
+        /* the copies are kept (C12); the pointers in CUR stay non-NULL: "continue" */
+        if (newmem) { keep(CUR.name, strlen(CUR.name) + 1); keep(CUR.data, CUR.size); }
     } else {
         printf("false %s", errname(e));
     }
 }
 
+static void put_result(bool r, int e) {
+    printf("allocs=%ld ", aw_end());
+    if (r) printf("true"); else printf("false %s", errname(e));
+}
+
 int main(void) {
     char *line = NULL; size_t cap = 0; ssize_t len;
-    setvbuf(stdout, NULL, _IOFBF, 1 << 16);
+    harness_init();
     T = qhashtbl(0, 0);
     memset(&CUR, 0, sizeof(CUR));
     while ((len = getline(&line, &cap, stdin)) > 0) {
@@ -51,54 +91,104 @@ int main(void) {
         bytes_t a = {0, 0}, d = {0, 0};
         char *name = NULL;
         /* ops with a key: <op> <namehex> <hash> [<arg>] */
-        bool keyed = !strcmp(op, "put") || !strcmp(op, "putstr") || !strcmp(op, "putint") || !strcmp(op, "get")
+        bool keyed = !strcmp(op, "put") || !strcmp(op, "putstr") || !strcmp(op, "putstrf") || !strcmp(op, "putint") || !strcmp(op, "get")
                   || !strcmp(op, "getstr") || !strcmp(op, "getint") || !strcmp(op, "rm");
         if (keyed) {
             if (nw < 3 || !unhex(w[1], &a)) { printf("bad-op\n"); continue; }
             name = cstr_exact(&a);
         }
         errno = 0;
-        if (!strcmp(op, "new") && nw == 2) {
+        if ((!strcmp(op, "fault") || !strcmp(op, "faultfrom")) && nw == 2) {
+            /* arm: fail the k-th allocation (or all from the k-th) inside the next library call */
+            aw_arm(atol(w[1]), op[5] == 'f');
+            printf("ok"); dump(); printf("\n");
+            free(a.p); free(d.p); free(name);
+            continue;
+        }
+        if (!strcmp(op, "new") && (nw == 2 || nw == 3)) {
+            size_t range = (size_t) strtoull(w[1], NULL, 10);
+            int ts = nw == 3 && w[2][0] == '1';
             T->free(T);
-            T = qhashtbl((size_t) strtoull(w[1], NULL, 10), 0);
+            long before = aw_live;
+            aw_begin();
+            errno = 0;
+            T = qhashtbl(range, ts ? QHASHTBL_THREADSAFE : 0);
+            int e = errno;
+            printf("allocs=%ld ", aw_end());
+            if (T == NULL) {
+                /* a failed constructor must leave nothing behind; continue with a plain table */
+                printf("null %s ctorlive=%ld", errname(e), aw_live - before);
+                T = qhashtbl(range, 0);
+            } else printf("ok");
             memset(&CUR, 0, sizeof(CUR)); cur_valid = true;
-            printf("ok");
         } else if (!strcmp(op, "put") && nw == 4 && unhex(w[3], &d)) {
+            aw_begin();
             bool r = T->put(T, name, d.p, d.n);
-            printf(r ? "true" : "false %s", errname(errno));
+            int e = errno;
+            memset(name, 0xAA, a.n); memset(d.p, 0xAA, d.n);      /* the caller's buffers are gone (C12) */
+            put_result(r, e);
         } else if (!strcmp(op, "putstr") && nw == 4 && unhex(w[3], &d)) {
             char *s = cstr_exact(&d);
+            aw_begin();
             bool r = T->putstr(T, name, s);
-            printf(r ? "true" : "false %s", errname(errno));
+            int e = errno;
+            memset(name, 0xAA, a.n); memset(s, 0xAA, d.n);
+            put_result(r, e);
+            free(s);
+        } else if (!strcmp(op, "putstrf") && nw == 4 && unhex(w[3], &d)) {
+            char *s = cstr_exact(&d);
+            aw_begin();
+            bool r = T->putstrf(T, name, "%s", s);
+            int e = errno;
+            memset(name, 0xAA, a.n); memset(s, 0xAA, d.n);
+            put_result(r, e);
             free(s);
         } else if (!strcmp(op, "putint") && nw == 4) {
+            aw_begin();
             bool r = T->putint(T, name, (int64_t) strtoll(w[3], NULL, 10));
-            printf(r ? "true" : "false %s", errname(errno));
+            int e = errno;
+            memset(name, 0xAA, a.n);
+            put_result(r, e);
         } else if (!strcmp(op, "get") && nw == 4) {
             bool newmem = w[3][0] == '1';
             size_t sz = 12345;
+            aw_begin();
             void *p = T->get(T, name, &sz, newmem);
-            if (p) { printf("data "); puthex(stdout, p, sz); printf(" %zu", sz); if (newmem) free(p); }
-            else printf("null %s", errname(errno));
+            int e = errno;
+            printf("allocs=%ld ", aw_end());
+            if (p) { printf("data "); puthex(stdout, p, sz); printf(" %zu", sz); if (newmem) keep(p, sz); }
+            else printf("null %s", errname(e));
         } else if (!strcmp(op, "getstr") && nw == 3) {
             size_t sz = 0;
             void *p = T->get(T, name, &sz, false);
             if (p && !memchr(p, 0, sz)) printf("nonul");      /* not a C string: the call would over-read */
             else {
                 errno = 0;
+                aw_begin();
                 char *s = T->getstr(T, name, true);
-                if (s) { printf("str "); puthex(stdout, s, strlen(s)); free(s); }
-                else printf("null %s", errname(errno));
+                int e = errno;
+                printf("allocs=%ld ", aw_end());
+                if (s) { printf("str "); puthex(stdout, s, strlen(s)); keep(s, strlen(s) + 1); }
+                else printf("null %s", errname(e));
             }
         } else if (!strcmp(op, "getint") && nw == 3) {
             size_t sz = 0;
             void *p = T->get(T, name, &sz, false);
             if (p && !memchr(p, 0, sz)) printf("nonul");
-            else printf("int %" PRId64, T->getint(T, name));
+            else {
+                errno = 0;
+                aw_begin();
+                int64_t v = T->getint(T, name);
+                int e = errno;
+                printf("allocs=%ld int %" PRId64 "%s", aw_end(), v, e == ENOMEM ? " ENOMEM" : "");
+            }
         } else if (!strcmp(op, "rm") && nw == 3) {
+            aw_begin();
             bool r = T->remove(T, name);
+            int e = errno;
             cur_valid = false;
-            printf(r ? "true" : "false %s", errname(errno));
+            printf("allocs=%ld ", aw_end());
+            if (r) printf("true"); else printf("false %s", errname(e));
         } else if (!strcmp(op, "size") && nw == 1) {
             printf("size %zu", T->size(T));
         } else if (!strcmp(op, "clear") && nw == 1) {
@@ -112,12 +202,16 @@ int main(void) {
             if (!cur_valid) printf("skip");
             else {
                 bool newmem = w[1][0] == '1';
+                aw_begin();
                 bool r = T->getnext(T, &CUR, newmem);
-                show_next(r, errno, newmem);
+                int e = errno;
+                printf("allocs=%ld ", aw_end());
+                show_next(r, e, newmem);
             }
         } else if (!strcmp(op, "walk") && nw == 2) {
-            /* the loop of the property: zeroed cursor, getnext until false */
+            /* the loop of the property: zeroed cursor, getnext until false (never armed) */
             bool newmem = w[1][0] == '1';
+            aw_arm(0, 0);
             memset(&CUR, 0, sizeof(CUR)); cur_valid = true;
             printf("walk");
             size_t guard = T->num + 2;
@@ -128,14 +222,24 @@ int main(void) {
                 show_next(r, errno, newmem);
                 if (!r) break;
             }
+        } else if (!strcmp(op, "end") && nw == 1) {
+            /* C11: once the container is released every block it allocated is freed;
+             * C12: the copies handed out must have survived everything including the release */
+            T->free(T);
+            long bad = check_kept();
+            printf("end live=%ld bad=%ld", aw_live, bad);
+            T = qhashtbl(0, 0);
+            memset(&CUR, 0, sizeof(CUR)); cur_valid = true;
         } else {
             printf("bad-op");
         }
+        aw_arm(0, 0);       /* an armed failure never outlives the operation it was meant for */
         dump();
         printf("\n");
         free(a.p); free(d.p); free(name);
     }
     T->free(T);
+    check_kept(); free(kept);
     free(line);
     return 0;
 }
